@@ -21,6 +21,9 @@ RoundKinds  == {"LineString", "MultiLineString"}      \* buffered with round cap
 Negative(b) == b[1] < 0 \/ b[2] < 0
 
 (* ---- closed forms: "exactly the interval or box widened by the buffers" (clamped at the domain edges) ---- *)
+\* The domain is time >= 0 and 0 <= frequency <= MAX_FREQUENCY: TIME HAS NO UPPER EDGE.  The start is clamped at 0,
+\* the end is end + tb however large (an event days into a recording, a buffer of months); only frequencies are
+\* clamped on both sides.  MC_Buffer carries times and time buffers beyond MAX_FREQUENCY seconds for that reason.
 BufClosed(g, b) ==
   LET c == g.coordinates IN
   CASE g.type = "TimeStamp"    -> G("TimeInterval", <<Max(c - b[1], 0), c + b[1]>>)
@@ -120,7 +123,7 @@ OnOrIn(g, p) ==
 (* are certain in spite of the inscribed polygons: the same buffers, or    *)
 (* every axis either stays 0 or grows by at least 1/cos(pi/32).            *)
 (***************************************************************************)
-Grows(x, y) == (x = 0 /\ y = 0) \/ (y > 0 /\ CapN * y >= CapD * x)
+Grows(x, y) == (x = 0 /\ y = 0) \/ (y > 0 /\ y - x >= CeilDiv(x, CapN))      \* CapN * y >= CapD * x without large products
 MonoComparable(b1, b2) == b1 = b2 \/ (Grows(b1[1], b2[1]) /\ Grows(b1[2], b2[2]))
 
 (***************************************************************************)
